@@ -280,7 +280,7 @@ pub fn run(ctx: &mut Ctx) {
 
     // all schedules for 0..=4 items
     let mut enumerated = vec![];
-    let n_max = tier.pick(4, 5);
+    let n_max = tier.pick(5, 6);
     for prog in SPROGS {
         for n in 0..=n_max {
             if prog == SProg::KeyedSnapshot {
@@ -314,7 +314,7 @@ pub fn run(ctx: &mut Ctx) {
             items,
             tape: Some(tape),
         });
-    ctx.check("slices-tapes", tier.pick(400, 10000), strat, |c: &SCase, obs: &mut Obs| {
+    ctx.check("slices-tapes", tier.pick(3000, 80000), strat, |c: &SCase, obs: &mut Obs| {
         obs.class(format!("prog:{}", c.prog.name()));
         let (slices, nonempty) = check_case(&built, c, &execs)?;
         obs.nontrivial(slices >= 3 && nonempty >= 2);
